@@ -138,4 +138,16 @@ CHECKS = {
                 "with a trailing payload. Lengths are enumerated exhaustively, contents are sampled; no schedule or fault matters for this property - the simulator contributes the observation points.",
         "real": REAL_SYSTEM, "stub": STUB_SYSTEM + ["transparent man-in-the-middle node (byte counter)"], "assumptions": ASSUME_SYSTEM + ["IPv4 / IPv6 literals are covered by C01 and C13"],
     },
+    "C03": {
+        "level": "exploration",
+        "parts": [{"gen": "C03", "quick": 6000, "thorough": 120000}],
+        "rule": "refinement against an independent reference implementation of the published formats (/verif/refimpl: no dependency on /repo, shares only third-party crypto crates; calibrated against the repository's own known-answer vectors) "
+                "placed as a second party on the simulated wire. The mode cycles with the seed: real client -> strict reference server (which also answers), reference client -> real server -> target, the same two for Shadowsocks datagrams, "
+                "and the library's stream encoder driven directly with one 70 000-byte write. Cells: 7 Shadowsocks ciphers (2022 AES ones also with 1 and 3 registered users, the reference client being a drawn user), VMess x 2 with all 8 option masks that contain ChunkStream, Trojan; "
+                "drawn passwords / keys / UUIDs, all address kinds, 1-5 writes per direction of 1..3000 bytes or boundary sizes (16383..70000). Oracle: the strict reference accepts everything the code emits and recovers the same address and payload, "
+                "the code accepts everything the reference emits with the same result, sender limits hold (legacy chunk <= 0x3FFF, 2022 chunk <= 0xFFFF).",
+        "real": REAL_SYSTEM, "stub": STUB_SYSTEM + ["the other protocol party is the reference implementation"], "assumptions": ASSUME_SYSTEM + [
+            "the reference is the harness author's reading of SIP004 / SIP022 / SIP023, the VMess AEAD description and Trojan; where the de-facto specification is v2ray's behaviour (authenticated length keyed by the request key and IV in both directions, padding drawn before the size mask) it follows that - these points have reduced independence",
+            "VMess / Trojan datagram-in-stream formats are exercised between the two real ends (C02), not against the reference"],
+    },
 }
